@@ -34,7 +34,7 @@ def describe(rep):
         'equals the multigrid-in-time iteration written with explicit matrices inside the query (unknowns defined by equations, solved by the solver).'
     )
     rep.rule = 'case = (fine nodes, coarse nodes, coarse sweeper, prolongation mode, levels, clause)'
-    rep.assume('implicit solve stub: returns a fresh w with w - a F(w) = rhs, and returns the initial guess if that already solves the equation (solver contract, C12)',
+    rep.assume('right-hand side F(u, t) uninterpreted and NON-AUTONOMOUS; implicit solve stub: returns a fresh w with w - a F(w, t) = rhs, and returns the initial guess if that already solves the equation (solver contract, C12)',
                'space transfer: identity (injection) or an exact matrix pair; restriction rows of the node transfer sum to one',
                'reals for floats; (c) tolerance 1e-9 for the rounding of the float transfer tables')
     rep.out_of_scope('the real mesh transfer classes (they are C11)', 'mass-matrix transfer', 'more than 3 levels', 'rounding')
@@ -151,11 +151,11 @@ def fixedpoint_case(rep, Ms, sw, finter, nsweeps):
         U = [z3.Real(f'U{m}') for m in range(1, Mf + 1)]
         for m in range(1, Mf + 1):
             Lf.u[m] = sp.mkmesh(P, [SymReal(U[m - 1])])
-            Lf.f[m] = P.eval_f(Lf.u[m], 0)
+            Lf.f[m] = P.eval_f(Lf.u[m], Lf.time + Lf.dt * Lf.sweep.coll.nodes[m - 1])
         Lf.status.unlocked = True
         # the fine level holds its collocation solution
         for m in range(1, Mf + 1):
-            cons.append(U[m - 1] == u0 + dt.t * sum(rv(Lf.sweep.coll.Qmat[m, j]) * F(U[j - 1]) for j in range(1, Mf + 1)))
+            cons.append(U[m - 1] == u0 + dt.t * sum(rv(Lf.sweep.coll.Qmat[m, j]) * F(U[j - 1], dt.t * rv(Lf.sweep.coll.nodes[j - 1])) for j in range(1, Mf + 1)))
         for a in cons:
             c.add(a)
         fold = [R(Lf.f[m][0]) for m in range(1, Mf + 1)]
@@ -230,8 +230,8 @@ def mutated_tau(rep, Ms, sw, name):
         U = [z3.Real(f'U{m}') for m in range(1, Ms[0] + 1)]
         for m in range(1, Ms[0] + 1):
             Lf.u[m] = sp.mkmesh(P, [SymReal(U[m - 1])])
-            Lf.f[m] = P.eval_f(Lf.u[m], 0)
-            cons.append(U[m - 1] == u0 + dt.t * sum(rv(Lf.sweep.coll.Qmat[m, j]) * F(U[j - 1]) for j in range(1, Ms[0] + 1)))
+            Lf.f[m] = P.eval_f(Lf.u[m], Lf.time + Lf.dt * Lf.sweep.coll.nodes[m - 1])
+            cons.append(U[m - 1] == u0 + dt.t * sum(rv(Lf.sweep.coll.Qmat[m, j]) * F(U[j - 1], dt.t * rv(Lf.sweep.coll.nodes[j - 1])) for j in range(1, Ms[0] + 1)))
         Lf.status.unlocked = True
         for a in cons:
             c.add(a)
@@ -265,12 +265,12 @@ def float_cycle(Ms, sw, finter, nsweeps, lam=-1.3, cubic=0.4, dt=0.3, u0=0.7, qd
 
         def eval_f(self, u, t):
             f = self.dtype_f(self.init)
-            f[:] = lam * np.asarray(u) + cubic * np.asarray(u) ** 3
+            f[:] = lam * np.asarray(u) + cubic * np.asarray(u) ** 3 + np.sin(3.0 * t)
             return f
 
         def solve_system(self, rhs, factor, u0_, t):
             me = self.dtype_u(self.init)
-            g = lambda w: w - factor * (lam * w + cubic * w**3) - float(rhs[0])
+            g = lambda w: w - factor * (lam * w + cubic * w**3 + np.sin(3.0 * t)) - float(rhs[0])
             me[:] = fsolve(g, float(u0_[0]), xtol=1e-15)[0]
             return me
 
@@ -282,13 +282,14 @@ def float_cycle(Ms, sw, finter, nsweeps, lam=-1.3, cubic=0.4, dt=0.3, u0=0.7, qd
     P = Lf.prob
     Q = Lf.sweep.coll.Qmat[1:, 1:]
     Mf = Ms[0]
-    g = lambda U: U - u0 - dt * Q @ (lam * U + cubic * U**3)
+    tn = dt * Lf.sweep.coll.nodes
+    g = lambda U: U - u0 - dt * Q @ (lam * U + cubic * U**3 + np.sin(3.0 * tn))
     Usol = fsolve(g, np.full(Mf, u0), xtol=1e-15)
     Lf.u[0] = P.dtype_u(P.init, val=u0)
     Lf.f[0] = P.eval_f(Lf.u[0], 0)
     for m in range(1, Mf + 1):
         Lf.u[m] = P.dtype_u(P.init, val=float(Usol[m - 1]))
-        Lf.f[m] = P.eval_f(Lf.u[m], 0)
+        Lf.f[m] = P.eval_f(Lf.u[m], float(tn[m - 1]))
     Lf.status.unlocked = True
     NLv = len(Ms)
     for l in range(NLv - 1):
